@@ -14,6 +14,7 @@ import (
 
 type batchItem struct {
 	Lenient bool           `json:"lenient"`
+	Seed    int64          `json:"seed"`
 	ID      int            `json:"id"`
 	Harness string         `json:"harness"`
 	Tier    string         `json:"tier"`
@@ -40,7 +41,7 @@ func TestReplayBatch(t *testing.T) {
 			continue
 		}
 		verif.Reset(it.Witness, it.Tier, it.Bounds)
-		verif.Lenient = it.Lenient
+		verif.Lenient, verif.LenientSeed = it.Lenient, it.Seed
 		func() {
 			defer func() {
 				if r := recover(); r != nil {
